@@ -121,6 +121,7 @@ def run(st, tier, seed):
     examples = json.load(open(os.path.join(core.CORPUS, "examples.json")))
     n_ex = 12 if tier == "quick" else len(examples)
     bundles = []
+    mutated_texts = []
 
     def judge(text_out, inp, what, redo=None):
         if redo is not None:
@@ -173,6 +174,7 @@ def run(st, tier, seed):
                 with open(os.path.join(d, rel), "w") as f:
                     f.write(b.texts[rel])
                 res.evaluations += 1
+                mutated_texts.append((rel, mt))
                 res.count("mutation:" + what.split(" ")[0])
                 res.count("mutant:" + ("accepted" if out is not None else "rejected"))
                 if out is not None:
@@ -222,6 +224,15 @@ def run(st, tier, seed):
                 if out is not None:
                     res.nontriv(mt)
                     judge(out, dict(inp0, files={"examples/" + relp: mt}, mutation=what), what)
+    # text level: every line of a sample of the mutated files through the models of the statement parsers and the real ones
+    if st.driver_ok and mutated_texts:
+        import parsecorr_comp, parsecorr_sys
+        drvp = core.Driver()
+        rng.shuffle(mutated_texts)
+        cl = [l for rel, t in mutated_texts[:400 if tier == "quick" else 20000] if rel.endswith(".comp") for l in t.split("\n") if l.strip()]
+        sl = [l for rel, t in mutated_texts[:400 if tier == "quick" else 20000] if rel.endswith(".sys") for l in t.split("\n") if l.strip()]
+        parsecorr_comp.check_lines(res, drvp, list(dict.fromkeys(cl))[:3000 if tier == "quick" else 10 ** 6], "text-mutant")
+        parsecorr_sys.check_lines(res, drvp, list(dict.fromkeys(sl))[:1500 if tier == "quick" else 10 ** 6], "text-mutant")
     # model correspondence on the well-formed stream
     sub = Result("C09")
     compile_check.run_bundles(st, sub, bundles, "C09", "program")
